@@ -42,7 +42,15 @@ EXTENDS IntrospectProp
 NoSite == [role |-> "none", cont |-> "none", tk |-> "fund", tgt |-> 0, xfer |-> TRUE, scope |-> FALSE, vskip |-> FALSE]
 Nm == <<"N1", "N2", "N3", "N4", "N5", "N6", "N7", "N8", "N9", "N10", "N11", "N12", "N13", "N14", "N15", "N16">>
 ModelNs == "M"
-QName(n) == ModelNs \o "." \o Nm[n]
+\* name tables (no string concatenation while model checking)
+QN      == <<"M.N1", "M.N2", "M.N3", "M.N4", "M.N5", "M.N6", "M.N7", "M.N8", "M.N9", "M.N10", "M.N11", "M.N12", "M.N13", "M.N14", "M.N15", "M.N16">>
+FieldId == <<"M.N1/field:f", "M.N2/field:f", "M.N3/field:f", "M.N4/field:f", "M.N5/field:f", "M.N6/field:f", "M.N7/field:f", "M.N8/field:f", "M.N9/field:f", "M.N10/field:f", "M.N11/field:f", "M.N12/field:f", "M.N13/field:f", "M.N14/field:f", "M.N15/field:f", "M.N16/field:f">>
+MethId  == <<"M.N1/method:set_p", "M.N2/method:set_p", "M.N3/method:set_p", "M.N4/method:set_p", "M.N5/method:set_p", "M.N6/method:set_p", "M.N7/method:set_p", "M.N8/method:set_p", "M.N9/method:set_p", "M.N10/method:set_p", "M.N11/method:set_p", "M.N12/method:set_p", "M.N13/method:set_p", "M.N14/method:set_p", "M.N15/method:set_p", "M.N16/method:set_p">>
+VfId    == <<"M.N1/virtual-method:set_p", "M.N2/virtual-method:set_p", "M.N3/virtual-method:set_p", "M.N4/virtual-method:set_p", "M.N5/virtual-method:set_p", "M.N6/virtual-method:set_p", "M.N7/virtual-method:set_p", "M.N8/virtual-method:set_p", "M.N9/virtual-method:set_p", "M.N10/virtual-method:set_p", "M.N11/virtual-method:set_p", "M.N12/virtual-method:set_p", "M.N13/virtual-method:set_p", "M.N14/virtual-method:set_p", "M.N15/virtual-method:set_p", "M.N16/virtual-method:set_p">>
+SigId   == <<"M.N1/glib:signal:sig", "M.N2/glib:signal:sig", "M.N3/glib:signal:sig", "M.N4/glib:signal:sig", "M.N5/glib:signal:sig", "M.N6/glib:signal:sig", "M.N7/glib:signal:sig", "M.N8/glib:signal:sig", "M.N9/glib:signal:sig", "M.N10/glib:signal:sig", "M.N11/glib:signal:sig", "M.N12/glib:signal:sig", "M.N13/glib:signal:sig", "M.N14/glib:signal:sig", "M.N15/glib:signal:sig", "M.N16/glib:signal:sig">>
+PropId  == <<"M.N1/property:p", "M.N2/property:p", "M.N3/property:p", "M.N4/property:p", "M.N5/property:p", "M.N6/property:p", "M.N7/property:p", "M.N8/property:p", "M.N9/property:p", "M.N10/property:p", "M.N11/property:p", "M.N12/property:p", "M.N13/property:p", "M.N14/property:p", "M.N15/property:p", "M.N16/property:p">>
+ClsNm   == <<"N1Class", "N2Class", "N3Class", "N4Class", "N5Class", "N6Class", "N7Class", "N8Class", "N9Class", "N10Class", "N11Class", "N12Class", "N13Class", "N14Class", "N15Class", "N16Class">>
+QName(n) == QN[n]
 
 IsCallable(k) == k \in {"callback", "function"}
 Direct(s)     == s.cont = "none" /\ s.tk = "node"       \* the type names a node of this namespace (target_giname)
@@ -138,15 +146,39 @@ Visit(w, g, st, n) ==
            ELSE IF k = "function" /\ g[n].moved /\ ~st.intro[n] THEN Set(st, "dropped", n, TRUE) ELSE st
       [] OTHER -> st              \* _introspectable_symbol_collisions: diagnostics only
 
-\* namespace.walk(callback): the nodes in namespace order, each visit sees the effects of the earlier ones
-RECURSIVE WalkFrom(_, _, _, _, _)
-WalkFrom(w, g, order, i, st) ==
-    IF i > Len(order) THEN st ELSE WalkFrom(w, g, order, i + 1, Visit(w, g, st, order[i]))
-Walk(w, C, st) == WalkFrom(w, C.nodes, C.order, 1, st)
+\* namespace.walk(callback): the nodes in namespace order, each visit sees the effects of the earlier ones.
+\* (Unrolled fold, at most 12 nodes: TLC does not cache the lazily evaluated parameters of RECURSIVE
+\*  operators, so a recursive fold re-evaluates the whole prefix at every use of the accumulator.)
+MaxNodes == 12
+Walk(w, C, st) ==
+    LET g == C.nodes  o == C.order  n == Len(C.order)
+        s1 == IF n >= 1 THEN Visit(w, g, st, o[1]) ELSE st
+        s2 == IF n >= 2 THEN Visit(w, g, s1, o[2]) ELSE s1
+        s3 == IF n >= 3 THEN Visit(w, g, s2, o[3]) ELSE s2
+        s4 == IF n >= 4 THEN Visit(w, g, s3, o[4]) ELSE s3
+        s5 == IF n >= 5 THEN Visit(w, g, s4, o[5]) ELSE s4
+        s6 == IF n >= 6 THEN Visit(w, g, s5, o[6]) ELSE s5
+        s7 == IF n >= 7 THEN Visit(w, g, s6, o[7]) ELSE s6
+        s8 == IF n >= 8 THEN Visit(w, g, s7, o[8]) ELSE s7
+        s9 == IF n >= 9 THEN Visit(w, g, s8, o[9]) ELSE s8
+        s10 == IF n >= 10 THEN Visit(w, g, s9, o[10]) ELSE s9
+        s11 == IF n >= 11 THEN Visit(w, g, s10, o[11]) ELSE s10
+        s12 == IF n >= 12 THEN Visit(w, g, s11, o[12]) ELSE s11
+    IN  s12
 
-RECURSIVE RunFrom(_, _, _)
-RunFrom(C, j, st) == IF j > Len(WalkNames) THEN st ELSE RunFrom(C, j + 1, Walk(WalkNames[j], C, st))
-Run(C) == RunFrom(C, 1, InitSt(C.nodes))          \* IntrospectablePass.validate()
+\* IntrospectablePass.validate(): the nine walks in their real order
+Run(C) ==
+    LET r0 == InitSt(C.nodes)
+        r1 == Walk(WalkNames[1], C, r0)
+        r2 == Walk(WalkNames[2], C, r1)
+        r3 == Walk(WalkNames[3], C, r2)
+        r4 == Walk(WalkNames[4], C, r3)
+        r5 == Walk(WalkNames[5], C, r4)
+        r6 == Walk(WalkNames[6], C, r5)
+        r7 == Walk(WalkNames[7], C, r6)
+        r8 == Walk(WalkNames[8], C, r7)
+        r9 == Walk(WalkNames[9], C, r8)
+    IN  r9
 
 ---------------------------------------------------------------------------
 \* GIRWriter: the abstract GIR of the final state (same record shapes as harness/c05proj.py emits)
@@ -155,8 +187,10 @@ Marked(st, n) == st.skip[n] \/ ~st.intro[n]                 \* _append_node_gene
 TkName(s) == CASE s.tk = "fund" -> "gint" [] s.tk = "any" -> "gpointer" [] s.tk = "valist" -> "va_list"
                [] s.tk = "longlong" -> "long long" [] s.tk = "longdouble" -> "long double"
                [] s.tk = "foreign" -> "GLib.Bytes" [] s.tk = "node" -> Nm[s.tgt] [] OTHER -> ""
+QFund(nm) == CASE nm = "gint" -> "M.gint" [] nm = "gpointer" -> "M.gpointer" [] nm = "va_list" -> "M.va_list"
+               [] nm = "long long" -> "M.long long" [] nm = "long double" -> "M.long double" [] OTHER -> ""
 TkQ(s)   == IF s.tk = "node" THEN QName(s.tgt) ELSE IF s.tk = "foreign" THEN "GLib.Bytes"
-            ELSE IF TkName(s) = "" THEN "" ELSE ModelNs \o "." \o TkName(s)
+            ELSE IF s.tk = "unres" THEN "" ELSE QFund(TkName(s))
 TkNs(s)  == IF s.tk = "foreign" THEN "GLib" ELSE IF TkName(s) = "" THEN "" ELSE ModelNs
 
 U(id, okind, site, marked, tag, name, q, tns, depth, nkids, kid1, s) ==
@@ -179,11 +213,11 @@ NodeUses(g, st, n) ==
     CASE k = "alias"    -> SiteUses(q, "alias", m, g[n].site)
       [] k = "callback" -> SiteUses(q, "callback", m, g[n].site)
       [] k = "function" -> IF st.dropped[n] THEN <<>> ELSE SiteUses(q, "function", m, g[n].site)
-      [] k = "record"   -> SiteUses(q \o "/field:f", "field", m \/ ~st.fintro[n], g[n].site)
-      [] k = "class"    -> SiteUses(q \o "/method:set_p", "method", m \/ st.mskip[n] \/ ~st.mintro[n], g[n].site)
-                           \o SiteUses(q \o "/virtual-method:set_p", "virtual-method", m \/ st.vskp[n] \/ ~st.vintro[n], g[n].site)
-                           \o SiteUses(q \o "/glib:signal:sig", "glib:signal", m \/ st.sskip[n] \/ ~st.sintro[n], g[n].ssite)
-                           \o SiteUses(q \o "/property:p", "property", m \/ ~st.pintro[n], g[n].psite)
+      [] k = "record"   -> SiteUses(FieldId[n], "field", m \/ ~st.fintro[n], g[n].site)
+      [] k = "class"    -> SiteUses(MethId[n], "method", m \/ st.mskip[n] \/ ~st.mintro[n], g[n].site)
+                           \o SiteUses(VfId[n], "virtual-method", m \/ st.vskp[n] \/ ~st.vintro[n], g[n].site)
+                           \o SiteUses(SigId[n], "glib:signal", m \/ st.sskip[n] \/ ~st.sintro[n], g[n].ssite)
+                           \o SiteUses(PropId[n], "property", m \/ ~st.pintro[n], g[n].psite)
       [] OTHER          -> <<>>
 
 \* a callback-typed parameter of a callback gets its scope from a following GDestroyNotify: destroy index 1 of 2
@@ -196,8 +230,8 @@ NodePairs(g, st, n) ==
     LET q == QName(n) IN
     IF g[n].kind = "function" /\ ~st.dropped[n] THEN << P("fn", ModelNs, Nm[n], "function", "") >>
     ELSE IF g[n].kind # "class" THEN <<>>
-    ELSE << P("typestruct", ModelNs, Nm[n], "type-struct", Nm[n] \o "Class"),
-            P("typestruct", ModelNs, Nm[n] \o "Class", "is-gtype-struct-for", Nm[n]),
+    ELSE << P("typestruct", ModelNs, Nm[n], "type-struct", ClsNm[n]),
+            P("typestruct", ModelNs, ClsNm[n], "is-gtype-struct-for", Nm[n]),
             P("fn", q, "set_p", "method", ""),
             P("prop", q, "p", "property", ""),
             P("vfunc", q, "set_p", "invoker", "set_p") >>
